@@ -67,7 +67,13 @@ func nativeMapToObject(val any) Object {
 	valValue := reflect.ValueOf(val)
 
 	for _, key := range valValue.MapKeys() {
-		obj.Pairs[key.String()] = NativeToObject(valValue.MapIndex(key).Interface())
+		elem := NativeToObject(valValue.MapIndex(key).Interface())
+
+		if elem == nil {
+			return nil
+		}
+
+		obj.Pairs[key.String()] = elem
 	}
 
 	return obj
@@ -103,17 +109,29 @@ func nativeStructToObject(val any) Object {
 
 		fieldVal := reflect.ValueOf(val).Field(i).Interface()
 
-		obj.Pairs[field.Name] = NativeToObject(fieldVal)
+		elem := NativeToObject(fieldVal)
+
+		if elem == nil {
+			return nil
+		}
+
+		obj.Pairs[field.Name] = elem
 	}
 
 	return obj
 }
 
-func nativeSliceToArrayObject(slice []any) *Array {
+func nativeSliceToArrayObject(slice []any) Object {
 	arr := &Array{}
 
 	for _, val := range slice {
-		arr.Elements = append(arr.Elements, NativeToObject(val))
+		elem := NativeToObject(val)
+
+		if elem == nil {
+			return nil
+		}
+
+		arr.Elements = append(arr.Elements, elem)
 	}
 
 	return arr
